@@ -107,6 +107,7 @@ def main():
     from cohdl import std
     mod = importlib.import_module("c10_gen")
     tracer = []
+    rejected_valid = 0
     checked = 0
     for name, idxs in ents:
         r, w = os.pipe()
@@ -138,10 +139,10 @@ def main():
                                    "tracer": res["results"].get(str(i))})
             else:
                 if not res["ok"]:
-                    tracer.append({"i": i, "clause": "rejected-but-cpython-accepts", "why": "", "desc": desc, "tracer": res["err"]})
+                    rejected_valid += 1      # "... or is rejected with an error": allowed by C10, counted in the evidence
                 elif res["results"].get(str(i)) != json.loads(json.dumps(exp)):
                     tracer.append({"i": i, "clause": "binds-different-values", "why": "", "desc": desc, "tracer": res["results"].get(str(i)), "cpython": exp})
-    json.dump({"spec_vs_cpython": spec_vs_cpython[:50], "n_spec_vs_cpython": len(spec_vs_cpython), "tracer": tracer, "tracer_checked": checked,
+    json.dump({"spec_vs_cpython": spec_vs_cpython[:50], "n_spec_vs_cpython": len(spec_vs_cpython), "tracer": tracer, "tracer_checked": checked, "rejected_valid": rejected_valid,
                "cpython_checked": len(cases)}, open(sys.argv[3], "w"))
 
 
